@@ -57,7 +57,7 @@ mod pcmpestri_flags {
     /// Unsigned byte comparison
     pub const UBYTE_OPS: i32 = 0x00;
     /// Compare for equality
-    pub const CMP_EQUAL_ORDERED: i32 = 0x08;
+    pub const CMP_EQUAL_ORDERED: i32 = 0x0C;
     /// Return least significant index
     pub const LEAST_SIGNIFICANT: i32 = 0x00;
     /// Return most significant index
@@ -314,10 +314,17 @@ impl SimdStringSearch {
             return Some(pos);
         }
 
-        // Search remaining bytes
-        let remaining = &haystack[16..];
-        if let Some(pos) = unsafe { self.sse42_strchr_max_16(remaining, needle) } {
+        // Search bytes 16..32
+        let second_end = haystack.len().min(32);
+        if let Some(pos) = unsafe { self.sse42_strchr_max_16(&haystack[16..second_end], needle) } {
             return Some(16 + pos);
+        }
+
+        // Search bytes 32..35
+        if haystack.len() > 32 {
+            if let Some(pos) = unsafe { self.sse42_strchr_max_16(&haystack[32..], needle) } {
+                return Some(32 + pos);
+            }
         }
 
         None
